@@ -11,6 +11,11 @@
 // <oracle>   = ok | bad:<clause> (this harness's own, model-independent, check of the property)
 // <expected> = the exact answer the driver must give (differential observations), or `-`
 //              when the driver must answer `ok` (relational observations).
+//
+// `run` / `search` cases take `shake=<none|never|always|gen0|every|later|same> [shake_k=<k>]`: the shape of the
+// shake functor handed to evolution::run(run_count, shake) (searches: through a user validation_strategy).
+// The evaluator reads mutable data (fitcfg::salt) which the functor replaces; after every shake the monitor
+// reports `state shake …` and judges best.fitness == eval_now(best.solution) (and every other clause).
 #include <algorithm>
 #include <cmath>
 #include <fstream>
